@@ -447,3 +447,32 @@ Proof.
   intros Hs. pose proof (forall_squares _ step_ns_check s Hs) as H. cbv beta in H.
   apply andb_true_iff in H as [_ H]. now apply N.eqb_eq in H.
 Qed.
+
+(** ** rays as "aligned and nothing in between" *)
+Definition btw (d : dir) (s t : N) : list N := removelast (walk 7 d s (N.shiftl 1 t)).
+Definition free (occ u : N) : bool := negb (N.testbit occ u).
+
+Lemma walk_nil_indep k d s occ occ2 : walk k d s occ = [] -> walk k d s occ2 = [].
+Proof. destruct k; cbn [walk]; [reflexivity|]. destruct (step d s); [discriminate|reflexivity]. Qed.
+
+Lemma walk_char occ d t : forall k s,
+  existsb (N.eqb t) (walk k d s occ) =
+  existsb (N.eqb t) (walk k d s 0) && forallb (free occ) (removelast (walk k d s (N.shiftl 1 t))).
+Proof.
+  induction k as [|k IH]; intros s; cbn [walk]; [reflexivity|].
+  destruct (step d s) as [u|]; [|reflexivity].
+  rewrite N.bits_0, shiftl1_testbit. cbn [existsb].
+  destruct (N.eqb_spec u t) as [->|Hut].
+  - rewrite N.eqb_refl. reflexivity.
+  - replace (t =? u) with false by (symmetry; apply N.eqb_neq; congruence). cbn [orb].
+    destruct (walk k d u (N.shiftl 1 t)) as [|x w] eqn:Ew.
+    + rewrite (walk_nil_indep _ _ _ _ 0 Ew). rewrite (walk_nil_indep _ _ _ _ occ Ew).
+      now destruct (N.testbit occ u).
+    + change (removelast (u :: x :: w)) with (u :: removelast (x :: w)). cbn [forallb].
+      specialize (IH u). rewrite Ew in IH. unfold free at 1.
+      destruct (N.testbit occ u); cbn [negb andb]; [now rewrite andb_false_r|exact IH].
+Qed.
+
+Theorem ray_in_char occ d s t :
+  ray_in occ d s t = ray_in 0 d s t && forallb (free occ) (btw d s t).
+Proof. apply walk_char. Qed.
